@@ -911,7 +911,7 @@ pub fn run(prop: &'static str, ctx: &mut Ctx) {
     // deep chains (recursion depth of the recursive traversals, thresholds in the thousands): a path with one skip
     // edge at the start and one back edge near the end; plain cells search 0 -> n-1, transposed ones n-1 -> 0
     // (the priority-order oracle is quadratic in the chain length: C06 keeps the short chain only)
-    let deep_sizes: Vec<usize> = if prop == "C06" || prop == "C04" { vec![5000] } else { tier.pick(vec![5000, 20_000], vec![5000, 9000, 20_000, 40_000, 65_000]) };
+    let deep_sizes: Vec<usize> = if prop == "C06" { vec![5000] } else { tier.pick(vec![5000, 20_000, 70_000], vec![5000, 9000, 20_000, 40_000, 70_000, 140_000]) };
     for &n in &deep_sizes {
         let mut e: Vec<Tri> = (0..n - 1).map(|i| (i as Key, (i + 1) as Key, 7 + (i % 3) as EV)).collect();
         e.push((0, 2, 1));
@@ -921,7 +921,7 @@ pub fn run(prop: &'static str, ctx: &mut Ctx) {
     ctx.stats.extra.insert("deep_chain_sizes".into(), json!(deep_sizes));
     // one wide hub (in- and out-degree above 4096): 0 -> i and i -> 0 for every i, plus a chain among the first spokes
     if prop != "C06" {
-        for &n in &tier.pick(vec![4200usize], vec![4200, 8400, 17_000]) {
+        for &n in &tier.pick(vec![8400usize], vec![4200, 8400, 17_000, 70_000]) {
             let mut e: Vec<Tri> = (1..n).map(|i| (0 as Key, i as Key, 3 + (i % 4) as EV)).collect();
             e.extend((1..n).map(|i| (i as Key, 0 as Key, 1 + (i % 2) as EV)));
             e.extend((1..40).map(|i| (i as Key, (i + 1) as Key, 9)));
@@ -946,10 +946,14 @@ pub fn run(prop: &'static str, ctx: &mut Ctx) {
                         wd.tick();
                         // the very deep chains are there for the recursive traversals (dfs, orderings); the
                         // priority-order oracle is quadratic in the chain length
-                        if g.n > 6000 && matches!(&cell, Cell::Search(c) if c.algo != Algo::Dfs) {
+                        if g.n > 6000 && matches!(&cell, Cell::Search(c) if matches!(c.algo, Algo::PfsMin | Algo::PfsMax)) {
                             continue;
                         }
                         if g.n > 4000 && matches!(&cell, Cell::Search(c) if matches!(c.algo, Algo::PfsMin | Algo::PfsMax)) {
+                            continue;
+                        }
+                        // the exact ordering deciders are quadratic: beyond 30 000 nodes the orderings are exercised through scc() (C11)
+                        if g.n > 30_000 && matches!(&cell, Cell::Order(_)) {
                             continue;
                         }
                         let (root, target) = if cell.transposed() { (*t, *r) } else { (*r, *t) };
@@ -1053,7 +1057,7 @@ pub fn run(prop: &'static str, ctx: &mut Ctx) {
 pub fn compare_nodes<F: Flavour>(st: &mut Stats, seed: u64) {
     use std::cmp::Ordering;
     let mut combos: Vec<(Key, i32)> = vec![];
-    for k in [0u16, 1, 2, 7, u16::MAX] {
+    for k in [0 as Key, 1, 2, 7, Key::MAX] {
         for v in [i32::MIN, -1, 0, 1, 2, i32::MAX] {
             combos.push((k, v));
         }
